@@ -1,6 +1,7 @@
 #!/bin/bash
 # usage: seedrun.sh <patch.diff> <prop> [prop...] — apply a seeded change to /repo, run the quick checks, undo it.
 patch=$1; shift
+if [ -n "$(git -C /repo status --porcelain)" ]; then echo "seedrun: /repo has uncommitted changes; commit them first"; exit 2; fi
 cd /repo && git apply "$patch" || exit 2
 for p in "$@"; do /verif/bin/vcheck check --prop $p | cut -c1-260; echo "exit($p)=$?"; done
 git -C /repo checkout -- .
